@@ -1,5 +1,5 @@
 import PebblesVerif.Proofs.QueryBatch
-import PebblesVerif.Proofs.Merge
+import PebblesVerif.Proofs.ResultMerge
 import PebblesVerif.Proofs.InsertionPoints
 import PebblesVerif.Props.C10
 import PebblesVerif.Props.C11
@@ -427,7 +427,7 @@ example : decodeExchange Gen.QueryBatchFacts.expected "u" [false, true]
 end PebblesVerif.QB
 
 /-! ## no invention -/
-namespace PebblesVerif.Merge
+namespace PebblesVerif.ResultMerge
 open PebblesVerif
 
 /-- **`mergeMaps` / `mergeSlices` only move subtrees**: every scalar leaf of the merged value is a scalar
@@ -486,4 +486,4 @@ example : mergeObj true [("l", .arr [.obj [("id", .str "1"), ("a", .num "1")]])]
 example : mergeArr false [.obj [("id", .obj [])]] 0 [.obj [("id", .obj [])]]
     = .error "runtime error: comparing uncomparable type map[string]interface {}" := by rfl
 
-end PebblesVerif.Merge
+end PebblesVerif.ResultMerge
